@@ -281,10 +281,13 @@ impl Object for PlainObj {
 struct CustomEnum { seq: bool, variant: String, n: usize }
 
 struct Hinted<I> { inner: I, lo: usize, hi: Option<usize> }
-impl<I: Iterator<Item = Value>> Iterator for Hinted<I> {
-    type Item = Value;
-    fn next(&mut self) -> Option<Value> { self.inner.next() }
+impl<I: Iterator> Iterator for Hinted<I> {
+    type Item = I::Item;
+    fn next(&mut self) -> Option<I::Item> { self.inner.next() }
     fn size_hint(&self) -> (usize, Option<usize>) { (self.lo, self.hi) }
+}
+impl<I: DoubleEndedIterator> DoubleEndedIterator for Hinted<I> {
+    fn next_back(&mut self) -> Option<I::Item> { self.inner.next_back() }
 }
 
 const CE_NAMES: [&str; 6] = ["n0", "n1", "n2", "n3", "n4", "n5"];
@@ -293,7 +296,7 @@ impl CustomEnum {
     fn item(&self, i: usize) -> Value {
         match self.variant.as_str() {
             "str" => Value::from(CE_NAMES[i]),
-            "kv" | "revkv" => Value::from(vec![Value::from(i as i64), Value::from(10 * i as i64)]),
+            "kv" | "revkv" | "kvnone" | "revkvnone" => Value::from(vec![Value::from(i as i64), Value::from(10 * i as i64)]),
             _ => Value::from(i as i64),
         }
     }
@@ -318,10 +321,16 @@ impl Object for CustomEnum {
             "iterlow" => Enumerator::Iter(Box::new(Hinted { inner: items.into_iter(), lo: n.min(1), hi: None })),
             "iternone" => Enumerator::Iter(Box::new(Hinted { inner: items.into_iter(), lo: 0, hi: None })),
             "rev" => Enumerator::RevIter(Box::new(items.into_iter())),
+            // `RevIter` / the pair iterators whose size hints do not pin the length
+            "revlo" => Enumerator::RevIter(Box::new(Hinted { inner: items.into_iter(), lo: 0, hi: Some(n + 2) })),
+            "revnone" => Enumerator::RevIter(Box::new(Hinted { inner: items.into_iter(), lo: 0, hi: None })),
+            "none" => Enumerator::NonEnumerable,
             "empty" => Enumerator::Empty,
             "str" => Enumerator::Str(&CE_NAMES[..n.min(6)]),
             "kv" => Enumerator::KeyValueIter(Box::new((0..n as i64).map(|i| (Value::from(i), Value::from(10 * i))))),
             "revkv" => Enumerator::RevKeyValueIter(Box::new((0..n as i64).map(|i| (Value::from(i), Value::from(10 * i))))),
+            "kvnone" => Enumerator::KeyValueIter(Box::new(Hinted { inner: (0..n as i64).map(|i| (Value::from(i), Value::from(10 * i))), lo: 0, hi: None })),
+            "revkvnone" => Enumerator::RevKeyValueIter(Box::new(Hinted { inner: (0..n as i64).map(|i| (Value::from(i), Value::from(10 * i))), lo: n.min(1), hi: None })),
             _ => panic!("bad CE variant"),
         }
     }
@@ -436,8 +445,23 @@ fn lit_src(spec: &str) -> Option<String> {
     })
 }
 
+/// an item of a test sequence as a number: the integers themselves; the items of the custom objects
+/// that enumerate names (`n<i>`, `Enumerator::Str`) and pairs (`[i, 10 i]`, the key-value iterators
+/// of an object that is not a map) as `1000 + i` and `2000 + i`
 fn elem_str(v: &Value) -> String {
-    if v.is_undefined() { "undef".into() } else if v.kind() == ValueKind::Number && v.is_integer() { v.to_string() } else { format!("?{}", v.kind()) }
+    if v.is_undefined() { return "undef".into(); }
+    if v.kind() == ValueKind::Number && v.is_integer() { return v.to_string(); }
+    if let Some(s) = v.as_str() {
+        if let Some(i) = CE_NAMES.iter().position(|n| *n == s) { return (1000 + i).to_string(); }
+    }
+    if v.kind() == ValueKind::Seq && v.len() == Some(2) {
+        if let (Ok(k), Ok(x)) = (v.get_item_by_index(0), v.get_item_by_index(1)) {
+            if let (Some(k), Some(x)) = (k.as_i64(), x.as_i64()) {
+                if k >= 0 && x == 10 * k && k < 1000 { return (2000 + k).to_string(); }
+            }
+        }
+    }
+    format!("?{}", v.kind())
 }
 
 fn canon_g(v: &Value) -> String {
@@ -468,6 +492,7 @@ fn canon_item(container: &str, v: &Value) -> String {
         ValueKind::String if container.starts_with('s') || container.starts_with("RV:s") => format!("chr:{}{}", hex(v.as_str().unwrap().as_bytes()), if v.is_safe() { ":safe" } else { "" }),
         ValueKind::Number if (container.starts_with('b') || container.starts_with("RV:b")) && v.is_integer() => format!("byte:{}", v),
         ValueKind::Number if v.is_integer() => format!("elem:{}", v),
+        _ if container.starts_with("CE:") && !elem_str(v).starts_with('?') => format!("elem:{}", elem_str(v)),
         _ => format!("other:{}", canon_g(v)),
     }
 }
@@ -767,6 +792,7 @@ const NEW_VALUE_SPECS: &[&str] = &[
     "BS:4", "LL:4", "HS:1", "RP:3x2", "RP:0x3", "RP:2x0", "RR:2x2x2", "RR:1x3x1",
     "RV:L=4", "RV:X=4", "RV:BS=4", "RV:LL=3", "RV:P=3", "RV:RP=2x2", "RV:CE=I=vals=4", "RV:CE=I=rev=4", "RV:CE=S=seq=4", "RV:O=3", "RV:sm=61c3a962", "RV:b=000102",
     "CE:S:seq:4", "CE:S:vals:4", "CE:S:iter:4", "CE:S:rev:4", "CE:S:empty:0",
+    "CE:S:iterlo:4", "CE:S:iterlow:4", "CE:S:iternone:4", "CE:S:revnone:3", "CE:S:str:3", "CE:S:kvnone:3", "CE:I:str:3", "CE:I:kv:3", "CE:I:revkvnone:3",
     "CE:I:seq:4", "CE:I:vals:4", "CE:I:iter:4", "CE:I:iterlo:4", "CE:I:iterlow:4", "CE:I:iternone:4", "CE:I:rev:4", "CE:I:empty:0",
 ];
 
@@ -1582,6 +1608,7 @@ fn part_names() -> Vec<String> {
     v.push("mg".into());
     for i in 0..DV_SHARDS { v.push(format!("dv:{}", i)); }
     v.push("rel".into());
+    for i in 0..EO_SHARDS { v.push(format!("eo:{}", i)); }
     v.push("litbox".into());
     v
 }
@@ -1598,6 +1625,7 @@ fn gen_part(out: &mut impl Write, env: &Environment, part: &str, thorough: bool)
         "mg" => gen_mg(out, thorough),
         "dv" => gen_derived(out, thorough, arg.parse().unwrap()),
         "rel" => gen_relations(out, thorough),
+        "eo" => gen_eo(out, thorough, arg.parse().unwrap()),
         "litbox" => gen_litbox(out, env, thorough),
         _ => panic!("bad part {}", part),
     }
@@ -1689,8 +1717,97 @@ fn gen_litbox(out: &mut impl Write, env: &Environment, thorough: bool) {
     }
 }
 
+// =====================================================================================
+// eo stream: objects of every `Enumerator` variant x both sequence-like `ObjectRepr`s x honest /
+// loose / absent size hints, sliced and subscripted over a complete small box
+//   eo <S|I> <variant> <n> s <a> <b> <c>     `v[a:b:c]` (parts: integers or `_`)
+//   eo <S|I> <variant> <n> i <key spec>      `v[k]` (expression) ~~ `Value::get_item`
+//   eo <S|I> <variant> <n> m                 `v|list`: what the object enumerates
+// =====================================================================================
+const EO_VARIANTS: [&str; 16] = ["none", "empty", "seq", "vals", "iter", "iterlo", "iterlow", "iternone", "rev", "revlo", "revnone",
+                                 "str", "kv", "kvnone", "revkv", "revkvnone"];
+const EO_SHARDS: usize = 4;
+
+fn eo_spec(repr: &str, variant: &str, n: &str) -> String { format!("CE:{}:{}:{}", repr, variant, n) }
+
+fn run_eo(f: &[&str]) -> String {
+    let spec = eo_spec(f[1], f[2], f[3]);
+    let env = Environment::new();
+    if f[4] == "m" {
+        // what the object enumerates (`v|list`)
+        let v = mk_spec(&spec);
+        return match guarded(|| env.compile_expression("v|list").and_then(|e| e.eval(context! { v => v })).map(|o| canon_g(&o))) {
+            Ok(Ok(s)) => s, Ok(Err(e)) => err_str(&e), Err(_) => "panic".into(),
+        };
+    }
+    if f[4] == "s" {
+        let part = |x: &str| if x == "_" { String::new() } else if x.starts_with('-') { format!("({})", x) } else { x.to_string() };
+        let src = format!("v[{}:{}:{}]", part(f[5]), part(f[6]), part(f[7]));
+        let v = mk_spec(&spec);
+        match guarded(|| env.compile_expression(&src).and_then(|e| e.eval(context! { v => v })).map(|o| {
+            // enumerate the lazy result twice: an object can be enumerated again and again
+            let first = canon_g(&o);
+            let second = canon_g(&o);
+            // a result that announces a length has that many items
+            let n_items = if first.ends_with(':') { 0 } else { first.split(',').count() };
+            let len_bad = matches!(o.len(), Some(l) if l != n_items && !first.starts_with("err:"));
+            if first != second { format!("{}!={}", first, second) }
+            else if len_bad { format!("{}!len={}", first, o.len().unwrap()) }
+            else { first }
+        })) {
+            Ok(Ok(s)) => s, Ok(Err(e)) => err_str(&e), Err(_) => "panic".into(),
+        }
+    } else {
+        let v = mk_spec(&spec);
+        let k = mk_spec(f[5]);
+        let a = match guarded(|| env.compile_expression("v[k]").and_then(|e| e.eval(context! { v => v.clone(), k => k.clone() })).map(|o| canon_item(&spec, &o))) {
+            Ok(Ok(s)) => s, Ok(Err(e)) => err_str(&e), Err(_) => "panic".into(),
+        };
+        let b = match guarded(|| v.get_item(&k).map(|x| canon_item(&spec, &x))) {
+            Ok(Ok(s)) => s, Ok(Err(e)) => err_str(&e), Err(_) => "panic".into(),
+        };
+        if a == b { a } else { format!("{}!={}", a, b) }
+    }
+}
+
+fn gen_eo(out: &mut impl Write, thorough: bool, shard: usize) {
+    let lim: i64 = if thorough { 7 } else { 5 };
+    let mut bs: Vec<String> = vec!["_".to_string()];
+    for i in -lim..=lim { bs.push(i.to_string()); }
+    let steps: Vec<&str> = if thorough { vec!["_", "-3", "-2", "-1", "1", "2", "3", "4", "0", "-9223372036854775808", "9223372036854775807"] }
+                           else { vec!["_", "-2", "-1", "1", "2", "3", "0"] };
+    let mut keys: Vec<String> = (-lim - 2..=lim + 2).map(|i| format!("i:{}", i)).collect();
+    for k in ["T", "F", "Z", "U", "u:2", "I:-1", "I:1", "W:0", "sm:31", "i:-9223372036854775808", "i:9223372036854775807",
+              "u:18446744073709551615", "I:-9223372036854775809", "L:1"] { keys.push(k.to_string()); }
+    for x in [1.0f64, -1.0, -0.0, 1.5, f64::NAN] { keys.push(fb(x)); }
+    for (vi, variant) in EO_VARIANTS.iter().enumerate() {
+        if vi % EO_SHARDS != shard { continue; }
+        for repr in ["S", "I"] {
+            for n in 0..=(if thorough { 6usize } else { 4 }) {
+                if *variant == "empty" && n > 0 { continue; }
+                let ns = n.to_string();
+                let f = ["eo", repr, variant, &ns, "m"];
+                writeln!(out, "{}\t{}", f.join(" "), run_eo(&f)).unwrap();
+                for a in &bs {
+                    for b in &bs {
+                        for c in &steps {
+                            let f = ["eo", repr, variant, &ns, "s", a, b, c];
+                            writeln!(out, "{}\t{}", f.join(" "), run_eo(&f)).unwrap();
+                        }
+                    }
+                }
+                for k in &keys {
+                    let f = ["eo", repr, variant, &ns, "i", k];
+                    writeln!(out, "{}\t{}", f.join(" "), run_eo(&f)).unwrap();
+                }
+            }
+        }
+    }
+}
+
 fn run_more(f: &[&str]) -> String {
     match f[0] {
+        "eo" => run_eo(f),
         "mr" => run_mr(f[1], f[2]),
         "dr" => run_dr(f[1], f[2]),
         "pb" => run_pb(f[1], f[2], f[3], f[4]),
